@@ -29,6 +29,11 @@ def reverse_find_token(items: list[ExprNode], value: str) -> int:
     return -1
 
 
+def _stack_precedence(expr: ExprNode) -> int:
+    # unary operators bind tightest, whatever the precedence of the binary operator they share a symbol with.
+    return 2 if isinstance(expr, UnaryOp) else OPERATOR_PRECEDENCE[expr.token.value]
+
+
 def shunting_yard(expr_nodes: list[ExprNode]) -> list[ExprNode]:
     output_queue: list[ExprNode] = []
     operator_stack: list[ExprNode] = []
@@ -36,12 +41,15 @@ def shunting_yard(expr_nodes: list[ExprNode]) -> list[ExprNode]:
     for expr in expr_nodes:
         if isinstance(expr, Term):
             output_queue.append(expr)
-        elif isinstance(expr, BinOp) or isinstance(expr, UnaryOp):
-            current_precedence = OPERATOR_PRECEDENCE[expr.token.value] if isinstance(expr, BinOp) else 2
+        elif isinstance(expr, UnaryOp):
+            # a prefix operator waits for its operand: nothing on the stack can be applied yet.
+            operator_stack.append(expr)
+        elif isinstance(expr, BinOp):
+            current_precedence = OPERATOR_PRECEDENCE[expr.token.value]
 
             while (
                 len(operator_stack) > 0
-                and OPERATOR_PRECEDENCE[operator_stack[-1].token.value] <= current_precedence
+                and _stack_precedence(operator_stack[-1]) <= current_precedence
                 and operator_stack[-1].token.value != "("
             ):
                 output_queue.append(operator_stack.pop())
